@@ -91,6 +91,8 @@ impl Iterator for CaptureGroupIterator<'_> {
     type Item = usize;
 
     fn next(&mut self) -> Option<Self::Item> {
+        #[cfg(feature = "verif-hooks")]
+        crate::verif::step(crate::verif::site::CAPTURE_NEXT);
         let next = self.basis.next()?;
 
         // Increase valid paren count
